@@ -348,6 +348,25 @@ impl Substream {
         Self::new(peer, substream_id, SubstreamType::WebRtc(substream), codec)
     }
 
+    /// Verification hook: a TCP-flavoured [`Substream`] over a caller-supplied yamux stream
+    /// (no lifetime permit, unspecified codec). Adds code only; absent without the `verif`
+    /// feature.
+    #[cfg(feature = "verif")]
+    pub fn new_verif_yamux(
+        peer: PeerId,
+        substream_id: SubstreamId,
+        io: crate::yamux::Stream,
+    ) -> Self {
+        use tokio_util::compat::FuturesAsyncReadCompatExt;
+
+        Self::new_tcp(
+            peer,
+            substream_id,
+            tcp::Substream::new(io.compat(), crate::BandwidthSink::new(), None),
+            ProtocolCodec::Unspecified,
+        )
+    }
+
     /// Create new [`Substream`] for mocking.
     #[cfg(test)]
     pub(crate) fn new_mock(
